@@ -109,6 +109,9 @@ func init() {
 			t.Fatalf("infrastructure: gc reference unavailable: %v", err)
 		}
 		if msg := compareModule(c.Files, ts[0]); msg != "" {
+			if _, ambiguous := gopkgs.OrderInfo(c.Files); ambiguous && lastOrderOnly {
+				return // see Module.OrderAmbiguous
+			}
 			t.Fatalf("%s%s", msg, describeModule(c.Files))
 		}
 	})
@@ -125,11 +128,13 @@ func TestPropGcPackages(t *testing.T) {
 		mods := make([]map[string]string, n)
 		shape := make([]int, n)
 		agrees := make([]bool, n)
+		ambiguous := make([]bool, n)
 		for i := range mods {
 			m := gopkgs.Gen(t)
 			mods[i] = m.Files
 			shape[i] = len(m.Pkgs)
 			agrees[i] = m.ImportOrderAgrees
+			ambiguous[i] = m.OrderAmbiguous
 		}
 		ts, err := gcref.RunModules(mods)
 		if err != nil {
@@ -150,6 +155,10 @@ func TestPropGcPackages(t *testing.T) {
 				// and not in import path order (recorded finding): a module where the two
 				// orders differ, and only such a module, is attributed to it.
 				if !agrees[i] && lastOrderOnly && ev.Known("C01-independent-package-init-order") {
+					continue
+				}
+				if ambiguous[i] && lastOrderOnly {
+					ev.Excluded("gc_order_depends_on_packages_without_init_work")
 					continue
 				}
 				ev.Fail(t, "gcmod", ModCase{Files: files}, "%s%s", msg, describeModule(files))
